@@ -170,6 +170,9 @@ func registerIntrinsics(P *Program) {
 	I[vrtPkg+"Thorough"] = func(m *Machine, fn *ssa.Function, args []Value) Value {
 		return m.st.Bool(m.P.opts.Tier == "thorough" && !m.P.opts.ForceQuick)
 	}
+	I[vrtPkg+"Mid"] = func(m *Machine, fn *ssa.Function, args []Value) Value {
+		return m.st.Bool(m.P.opts.Tier == "thorough" && !m.P.opts.ForceQuick && m.P.opts.Mid)
+	}
 	I[vrtPkg+"Variant"] = func(m *Machine, fn *ssa.Function, args []Value) Value {
 		n := m.constInt(args[0].(*Term), "Variant n")
 		if int64(m.P.opts.Variant) >= n {
